@@ -21,3 +21,19 @@ Theorem C07_is_idle_layout_conjuncts : forall k,
   active_sequences (k_layout k) = [] /\ tap_dance_eager (k_layout k) = None /\ action_queue (k_layout k) = [].
 Proof. exact is_idle_layout_conjuncts. Qed.
 Print Assumptions C07_is_idle_layout_conjuncts.
+
+(* ---- on the fragment of C04, at the kanata level (Proofs/C07Fragment.v) ----
+   KSys: the instance is related to a keymap state (nothing waiting, no one-shot, no sequence, ...); with nothing pending,
+   running n more milliseconds before the next input or skipping them gives the same OS events for every continuation *)
+From KV Require Import Spec.Keymap Proofs.C04Refine Proofs.C04Kanata Proofs.C07Fragment.
+Theorem C07_fragment_idle_ticks_unobservable : forall cfg k m n is,
+  kfrag cfg -> KSys cfg k m -> km_pending m = [] -> k_prev_keys k = km_keys (held (km_st m)) ->
+  hist_ok (kc_layout cfg) 0 is = true -> physical is = true ->
+  exists outs, k_run cfg k is = Ok outs /\ k_run cfg k (repeat KmTick n ++ is) = Ok (repeat [] n ++ outs).
+Proof. exact idle_ticks_unobservable. Qed.
+Print Assumptions C07_fragment_idle_ticks_unobservable.
+
+Theorem C07_fragment_idle_means_nothing_pending : forall cfg k m,
+  KSys cfg k m -> k_is_idle k = true -> km_pending m = [].
+Proof. exact idle_means_nothing_pending. Qed.
+Print Assumptions C07_fragment_idle_means_nothing_pending.
